@@ -135,7 +135,7 @@ def check(ctx):
 
     # ---- R12-e FIFO ------------------------------------------------------------------------------------------
     mem_funcs = [f for f in ctx.repo.funcs_in(MEM)]
-    queue_ends(ctx, "R12-e", "memory", "buffer", funcs=mem_funcs, min_put=2, min_take=1)
+    queue_ends(ctx, "R12-e", "memory", "buffer", funcs=mem_funcs)
     queue_ends(ctx, "R12-e", "memory", "waiting_receivers", funcs=mem_funcs)
     queue_ends(ctx, "R12-e", "memory", "waiting_senders", funcs=mem_funcs)
 
